@@ -137,6 +137,15 @@ Proof.
   - apply filter_In in Hy. tauto.
 Qed.
 
+Lemma state_spec_times : forall a b evs,
+  Forall (fun e => time e = 0 \/ 0 < time e < b - a) (state_spec time set_time a b evs).
+Proof.
+  intros a b evs. unfold state_spec. apply Forall_app. split; rewrite Forall_forall; intros x Hx;
+    apply in_map_iff in Hx; destruct Hx as [y [<- Hy]]; rewrite Htime.
+  - now left.
+  - right. apply filter_In in Hy. unfold strictly_inside in Hy. lia.
+Qed.
+
 End Kind.
 
 (** * Notes *)
@@ -484,4 +493,61 @@ Proof.
   intros pres s ts ps H i a b p Hi Hp.
   destruct (extract_refines_spec _ _ _ _ H) as [_ R].
   destruct (R i a b p Hi Hp) as (_ & _ & _ & _ & _ & _ & T & Sb). split; assumption.
+Qed.
+
+(** ** Every event of a piece lies inside the piece (carried events sit at time 0) *)
+Theorem extract_events_inside : forall pres s ts ps,
+  extract_subsequences pres s ts = Ok ps ->
+  forall i a b p, nth_error (intervals ts) i = Some (a, b) -> nth_error ps i = Some p ->
+  Forall (fun e => tp_time e = 0 \/ 0 < tp_time e < b - a) (s_tempos p) /\
+  Forall (fun e => ts_time e = 0 \/ 0 < ts_time e < b - a) (s_tsigs p) /\
+  Forall (fun e => ks_time e = 0 \/ 0 < ks_time e < b - a) (s_ksigs p) /\
+  Forall (fun e => tx_time e = 0 \/ 0 < tx_time e < b - a) (chords_of p) /\
+  Forall (fun e => 0 <= tx_time e < b - a) (beats_of p) /\
+  Forall (fun e => cc_time e = 0 \/ 0 < cc_time e < b - a) (s_ccs p) /\
+  Forall (fun n => 0 <= n_start n < b - a /\ n_end n <= b - a) (s_notes p).
+Proof.
+  intros pres s ts ps H i a b p Hi Hp.
+  destruct (extract_refines_spec _ _ _ _ H) as [_ R].
+  pose proof (R i a b p Hi Hp) as P.
+  destruct (piece_chords_beats _ _ _ _ _ P) as [Ch Bt].
+  destruct P as (N & Tp & Ts & Ks & _ & Cc & _).
+  rewrite Tp, Ts, Ks, Ch, Bt, N.
+  repeat split; try (apply state_spec_times; reflexivity).
+  - unfold beats_spec. rewrite Forall_forall. intros x Hx. apply in_map_iff in Hx.
+    destruct Hx as [y [<- Hy]]. apply filter_In in Hy. cbn [tx_time text_with_time]. unfold in_piece in Hy. lia.
+  - rewrite Forall_forall. intros c Hc.
+    assert (Hk : In c (with_key (pedal_key c) (s_ccs p))).
+    { unfold with_key. apply filter_In. split; [exact Hc|]. apply key_eqb_refl. }
+    rewrite Cc in Hk. unfold pedal_spec in Hk.
+    pose proof (state_spec_times cc_time cc_with_time (fun _ _ => eq_refl) a b
+                  (with_key (pedal_key c) (pedals_of pres s))) as F.
+    rewrite Forall_forall in F. exact (F c Hk).
+  - unfold notes_spec. rewrite Forall_forall. intros x Hx. apply in_map_iff in Hx.
+    destruct Hx as [y [<- Hy]]. apply filter_In in Hy. unfold in_piece in Hy.
+    cbn [clipshift note_with_times n_start n_end]. lia.
+Qed.
+
+(** ** The notes of a piece do not depend on the storage order of the input notes *)
+Theorem extract_notes_order_independent : forall pres s s' ts ps ps',
+  Permutation (s_notes s) (s_notes s') ->
+  extract_subsequences pres s ts = Ok ps -> extract_subsequences pres s' ts = Ok ps' ->
+  forall i p p', nth_error ps i = Some p -> nth_error ps' i = Some p' ->
+  Permutation (s_notes p) (s_notes p').
+Proof.
+  intros pres s s' ts ps ps' Pm H H' i p p' Hp Hp'.
+  destruct (extract_refines_spec _ _ _ _ H) as [L _].
+  assert (Hi : exists ab, nth_error (intervals ts) i = Some ab).
+  { destruct (nth_error (intervals ts) i) eqn:E; [eauto|].
+    apply nth_error_None in E. assert (nth_error ps i <> None) by congruence.
+    apply nth_error_Some in H0. lia. }
+  destruct Hi as [[a b] Hi].
+  rewrite (extract_notes_partition _ _ _ _ H i a b p Hi Hp).
+  rewrite (extract_notes_partition _ _ _ _ H' i a b p' Hi Hp').
+  apply Permutation_map.
+  clear -Pm. induction Pm; cbn [filter].
+  - constructor.
+  - destruct (in_piece a b (n_start x)); [now constructor|assumption].
+  - destruct (in_piece a b (n_start x)), (in_piece a b (n_start y)); try reflexivity. apply perm_swap.
+  - etransitivity; eassumption.
 Qed.
